@@ -83,6 +83,20 @@ func (vc *VC) binop(st *State, op token.Token, x, y *Term, rt types.Type, pos to
 }
 
 func (vc *VC) valEq(x, y *Term) string {
+	// a slice compared with nil: it is the nil slice iff its array reference is nil
+	if x.Sort == SSlice && y.Sort != SSlice {
+		return "(= (s-ref " + x.S + ") nil)"
+	}
+	if y.Sort == SSlice && x.Sort != SSlice {
+		return "(= (s-ref " + y.S + ") nil)"
+	}
+	if x.Sort == SSlice && y.Sort == SSlice && (strings.HasPrefix(y.S, "(mk-slice nil ") || strings.HasPrefix(x.S, "(mk-slice nil ")) {
+		o := x
+		if strings.HasPrefix(x.S, "(mk-slice nil ") {
+			o = y
+		}
+		return "(= (s-ref " + o.S + ") nil)"
+	}
 	if x.Sort == SStr {
 		return "(streq " + x.S + " " + y.S + ")"
 	}
